@@ -1838,8 +1838,9 @@ import uuid as _uuid
 @model(_uuid.uuid4)
 def m_uuid4(I, args, kw):
     """a fresh identifier: an atom different from every atom seen so far on this path"""
-    I.ctx.trust('uuid.uuid4(): a fresh string different from every identifier already in use')
+    I.ctx.trust('uuid.uuid4(): a fresh string different from every identifier already in use and from every string constant of the program')
     a = I.ctx.fresh('uuid', 'atom')
+    I.ctx.assume(a.t >= 0)          # never one of the string constants of the program (their codes are negative)
     for b in I.ctx.atoms:
         I.ctx.assume(a.t != b.t)
     I.ctx.atoms.append(a)
